@@ -2,3 +2,4 @@
 import Librfn.Props.C16
 import Librfn.Props.C17
 import Librfn.Props.C19
+import Librfn.Props.C20
